@@ -73,6 +73,14 @@ def case_st(draw, relative=False):
         base = draw(lang.txn_case)
         pair = [dict(base, description='ZQMONTHLY FEE 77', date=f'2024-{mth:02d}-15'), dict(base, description='ZQMONTHLY FEE 77', date=f'2024-{(mth % 12) + 1:02d}-15')]
         txns = txns + (pair if draw(st.booleans()) else pair[::-1])
+    if draw(st.integers(0, 2)) == 0:
+        # a threshold with seven or more significant digits, and amounts on either side of it at the sixth digit
+        v = draw(st.sampled_from([10000.01, 12345.67, 250000.25, 123456.78, 15250.755]))
+        op = draw(st.sampled_from(['>=', '<=', '>', '<', '=']))
+        rules.insert(draw(st.integers(0, len(rules))), {'pattern': 'ZQBIG', 'mods': [{'k': 'amount', 'op': op, 'v': v}], 'merchant': 'Big Ticket', 'category': 'Shopping', 'subcategory': 'Large',
+                                                         'tags': ['big-ticket']})
+        base = draw(lang.txn_case)
+        txns = txns + [dict(base, description='ZQBIG PURCHASE', amount=a) for a in (v, float(f'{v:.6g}'), round(v - 0.01, 3), round(v + 0.01, 3))]
     return {'rules': rules, 'txns': txns}
 
 
